@@ -2,7 +2,7 @@
 import hashlib
 import zlib, json, os, re, shutil, subprocess, sys, time, fcntl
 
-import gen, render, dumpparse, rustexpr, structure
+import gen, render, dumpparse, rustexpr, structure, semgen
 
 VERIF = os.environ.get("VERIF_ROOT") or os.path.dirname(os.path.dirname(os.path.abspath(__file__)))
 REPO = os.environ.get("VERIF_REPO", "/repo")
@@ -380,7 +380,7 @@ def _build_and_run(tier, seed, profiles, decls_override=None):
     dump_dir = os.path.join(WORK_ROOT, "dumps")
     shutil.rmtree(dump_dir, ignore_errors=True)
     os.makedirs(dump_dir)
-    members = ["support", "runner", "probes", "nostd"] + ["c%d" % i for i in range(NCHUNK + 1)]
+    members = ["support", "runner", "probes", "nostd", "sem"] + ["c%d" % i for i in range(NCHUNK + 1)]
     setup_workspace(ws, members)
     write(os.path.join(ws, "support", "Cargo.toml"),
           "[package]\nname = \"support\"\nversion = \"0.1.0\"\nedition = \"2021\"\n\n[dependencies]\narbitrary-int = { version = \"1.3.0\", default-features = false }\n")
@@ -402,6 +402,11 @@ def _build_and_run(tier, seed, profiles, decls_override=None):
     if not os.path.exists(os.path.join(ws, "probes", "src", "lib.rs")):
         write(os.path.join(ws, "probes", "src", "lib.rs"), "\n")
     write(os.path.join(ws, "nostd", "Cargo.toml"), crate_toml("nostd"))
+    # semantics corpus (random expressions of the modelled operator fragment, see semgen.py)
+    sem_exprs = semgen.generate(seed, int(os.environ.get("VERIF_SEM_EXPRS", "3000" if tier == "thorough" else "400")))
+    write(os.path.join(ws, "sem", "Cargo.toml"),
+          "[package]\nname = \"sem\"\nversion = \"0.1.0\"\nedition = \"2021\"\n\n[dependencies]\narbitrary-int = { version = \"1.3.0\", default-features = false }\n")
+    write(os.path.join(ws, "sem", "src", "main.rs"), semgen.render_rust(sem_exprs))
     if not os.path.exists(os.path.join(ws, "nostd", "src", "lib.rs")):
         write(os.path.join(ws, "nostd", "src", "lib.rs"), "#![no_std]\n")
 
@@ -728,6 +733,32 @@ def _build_and_run(tier, seed, profiles, decls_override=None):
         ops[prof] = out_path
     timing["runner_s"] = time.time() - t0
 
+    # ---- semantics corpus: `eval` (both profiles) against rustc on random expressions ----------------------------------
+    t0 = time.time()
+    sem_res = {"exprs": len(sem_exprs), "ops": {}, "mismatches": [], "bad": [], "fail": None, "panics": {}}
+    for prof in profiles:
+        p = cargo(ws, ["build", "-p", "sem", "--offline"] + (["--release"] if prof == "release" else []))
+        if p.returncode != 0:
+            sem_res["fail"] = "sem build failed (%s): %s" % (prof, p.stderr[-1500:])
+            break
+        exe = os.path.join(ws, "target", "release" if prof == "release" else "debug", "sem")
+        sem_out = os.path.join(WORK_ROOT, "sem-%s.txt" % prof)
+        rp = subprocess.run([exe, sem_out], stdout=subprocess.PIPE, stderr=subprocess.PIPE, text=True)
+        if rp.returncode != 0:
+            sem_res["fail"] = "sem runner exited with %d: %s" % (rp.returncode, rp.stderr[-800:])
+            break
+        with open(sem_out) as f:
+            sem_ops = f.read().splitlines()
+        out = run_driver(semgen.proto_lines(sem_exprs) + ["profile chk=%d" % (1 if prof == "dev" else 0)] + sem_ops + ["stats"])
+        sem_res["ops"][prof] = len(sem_ops)
+        sem_res["panics"][prof] = sum(1 for l in sem_ops if l.endswith("= panic"))
+        sem_res["mismatches"] += [prof + " " + l for l in out if l.startswith("mismatch X")][:40]
+        sem_res["bad"] += [l[:300] for l in out if l.startswith("bad-sem")][:20]
+        m = re.search(r"sem=(\d+) misSem=(\d+)", out[-1] if out else "")
+        sem_res.setdefault("evaluated", {})[prof] = int(m.group(1)) if m else 0
+    timing["sem_s"] = time.time() - t0
+    log("semantics corpus: %s" % json.dumps({k: v for k, v in sem_res.items() if k not in ("mismatches", "bad")}))
+
     # ---- compile-time probes: access surface (C17), builder type-state (C14) ----------------------------------------
     t0 = time.time()
     probes_res = {"list": [], "fail": None}
@@ -859,6 +890,7 @@ def _build_and_run(tier, seed, profiles, decls_override=None):
         "focus": focus,
         "const_failed": const_failed,
         "probes": probes_res,
+        "semantics": sem_res,
         "const_ok": const_ok,
         "nostd": nostd_res,
         "model": model,
